@@ -17,7 +17,7 @@ RULE = ("seeded potential (Atoms / FrozenPhonons 1-4 configurations / AtomsEnsem
         "without a frozen-phonon unit; infinite and finite projection; scalar and explicit slice thicknesses; exit planes) and a drawn "
         "window [first, last). Subjects: build(lazy=False); build(lazy=True) computed by SimScheduler (blocks reordered / interleaved "
         "/ recomputed); build(first, last) in both modes; list(generate_slices(first, last)); a generator abandoned half-way followed "
-        "by a full generation. Reference for ensemble member k: an independent single-configuration Potential built from "
+        "by a full generation; a history of 2-4 windows (and full requests) answered by ONE object via generate_slices or build. Reference for ensemble member k: an independent single-configuration Potential built from "
         "list(frozen_phonons)[k]; for a crystal without phonons: the tiled unit potential. distinct = (scenario hash, schedule hash); "
         "non-trivial = an ensemble of >= 2 members or a proper sub-window")
 ASSUMPTIONS = ["window semantics: slices first..last-1 of the full sequence, with their thicknesses and exit-plane flags",
@@ -36,8 +36,12 @@ def draw_scenario(ch):
     ns = pot["num_slices"] * rep_z
     first = ch.range(0, ns - 1, "first")
     last = ch.range(first + 1, ns, "last")
+    hist = []
+    for _ in range(ch.range(2, 4, "n-history")):
+        f = ch.range(0, ns - 1, "h-first")
+        hist.append([f, ch.range(f + 1, ns, "h-last")] if ch.bool(0.75, "h-window") else [0, ns])
     return {"knobs": knobs, "potential": pot, "window": [first, last], "total_slices": ns,
-            "abandon_after": ch.range(0, ns, "abandon")}
+            "abandon_after": ch.range(0, ns, "abandon"), "history": hist, "history_via": ch.pick(["generate_slices", "build"], "h-via")}
 
 
 def sig(sc, aspect, mode, extra=None):
@@ -221,6 +225,42 @@ def run_one(run):
                     run.violate("generate-slices", sig(sc, "values", "after-abandon"),
                                 f"slice {j} differs after a generator was abandoned at {sc['abandon_after']}")
                     break
+    # ---- a history of windows requested from ONE object: each answer equals that of a fresh object ---------------------------------
+    crystal_random = ("fp" in p and kind == "crystal")
+    if not crystal_random:
+        via = sc["history_via"] if kind != "array" else "generate_slices"
+        hobj = single_member(scene.make_potential(p))
+        for step, (f, l) in enumerate(sc["history"]):
+            if via == "generate_slices":
+                got = guard(lambda: slices_record(hobj.generate_slices(f, l)), "generate-slices", "history")
+                if got is None:
+                    break
+                arrs = [a for a, _, _ in got]
+                meta_ok = all((t, ep) == (ft, fep) for (_, t, ep), (_, ft, fep) in zip(got, full_seq[f:l]))
+            else:
+                b = guard(lambda: hobj.build(f, l, lazy=False), "window-build", "history")
+                if b is None:
+                    break
+                ba = oracle.to_numpy(b.array)
+                arrs = [ba[j:j + 1] for j in range(ba.shape[0])] if ba.ndim == 3 else None
+                meta_ok = tuple(float(x) for x in b.slice_thickness) == tuple(t[0] for _, t, _ in full_seq[f:l])
+            want_arrs = [fa for fa, _, _ in full_seq[f:l]]
+            bad = None
+            if arrs is None or len(arrs) != len(want_arrs):
+                bad = f"{0 if arrs is None else len(arrs)} slices, expected {len(want_arrs)}"
+            elif not meta_ok:
+                bad = "slice thicknesses / exit-plane flags differ"
+            else:
+                for j, (a, fa) in enumerate(zip(arrs, want_arrs)):
+                    if a.shape != fa.shape or not oracle.close(a, fa, rtol, atol)[0]:
+                        bad = f"slice {f + j} differs (max|diff| {float(np.abs(a - fa).max()) if a.shape == fa.shape else 'shape'})"
+                        break
+            if bad:
+                run.violate("generate-slices" if via == "generate_slices" else "window-build", sig(sc, "values", "history", {"via": via}),
+                            f"window {step} [{f},{l}) of the history {sc['history']} requested from one object via {via}: {bad}; a fresh object "
+                            f"answers correctly")
+                break
+        run.note("reach_window_history")
     n_members = p.get("fp", {}).get("num_configs", 1) if kind != "crystal" else (p.get("num_frozen_phonons") or 1)
     run.nontrivial = n_members >= 2 or (last - first) < ns
     if n_members >= 2:
